@@ -108,7 +108,15 @@ func (g *c06gen) panicStmt() string {
 func (g *c06gen) deferStmt() string {
 	r := g.rg
 	id := g.id()
-	switch r.Intn(20) {
+	switch r.Intn(22) {
+	case 20:
+		// a deferred call which panics while no panic is in flight (normal return, or the panic already
+		// recovered by a deferred call registered later): the deferred calls registered earlier still run
+		g.tags["defer-panics-on-normal-return"] = true
+		return fmt.Sprintf("defer func() {\n\t\tobs(\"dpn\", %d, x)\n\t\tif x%%2 == 0 {\n\t\t\tpanic(\"user:late%d\")\n\t\t}\n\t}()", id, id)
+	case 21:
+		g.tags["defer-faults-on-normal-return"] = true
+		return fmt.Sprintf("defer func() {\n\t\tvar dm map[string]int\n\t\tobs(\"dfn\", %d)\n\t\tif x%%3 != 1 {\n\t\t\tdm[\"k\"] = x\n\t\t}\n\t}()", id)
 	case 16:
 		// reference-like arguments are fixed by the defer statement too: the variable is reassigned afterwards
 		g.tags["defer-ptr-arg-reassigned"] = true
@@ -223,7 +231,7 @@ const c06Cells = 12
 func init() { checks["C06"] = checkC06 }
 
 func checkC06(r *core.Run) {
-	r.Rule = "universe = 12000 generated programs x 12 cells; a cell is a call tree (depth up to 4) whose functions defer function literals, named functions with arguments mutated afterwards (scalars, and pointer / slice / map / channel variables reassigned after the defer statement), value and pointer method values, defers in loops, builtin defers, direct/helper/nested recover, re-panics, and raise explicit panics (string, struct, error) or run-time faults (nil dereference, index, slice, integer division by zero, nil map write, failed type assertion, close of closed channel), with named results altered after recover; each deferred call logs a unique id. verdict per cell = the log equals the gc binary's (run-time faults are compared by class, not message). A second family evaluates uncaught panics interactive-style: Eval must return interp.Panic carrying the original value, nothing may escape as a Go panic, and the interpreter must stay usable"
+	r.Rule = "universe = 12000 generated programs x 12 cells; a cell is a call tree (depth up to 4) whose functions defer function literals, named functions with arguments mutated afterwards (scalars, and pointer / slice / map / channel variables reassigned after the defer statement), value and pointer method values, defers in loops, deferred calls which panic or fault while no panic is in flight, builtin defers, direct/helper/nested recover, re-panics, and raise explicit panics (string, struct, error) or run-time faults (nil dereference, index, slice, integer division by zero, nil map write, failed type assertion, close of closed channel), with named results altered after recover; each deferred call logs a unique id. verdict per cell = the log equals the gc binary's (run-time faults are compared by class, not message). A second family evaluates uncaught panics interactive-style: Eval must return interp.Panic carrying the original value, nothing may escape as a Go panic, and the interpreter must stay usable"
 	r.Assume = []string{"gc build of the same source is the reference for the logs", "messages of run-time faults are not compared (reflect-based wording is not promised)"}
 	n := 60
 	if r.Thorough() {
